@@ -293,6 +293,11 @@ def cli_fmt_outputs(ctx, d, p, png, src, run):
     from .. import ast2deriv, cartio
     deriv = ast2deriv.trace(src)['deriv']
     combos = [(0, p), (3, p), (8, p), (None, p), (0, png), (8, png)] if ctx.quick else [(w_, p) for w_ in list(range(9)) + [None]] + [(0, png), (5, png), (8, png)]
+    # a cart file that ends right after its last code line (no final newline, no further section)
+    eof = os.path.join(d, 'eof.p8')
+    with open(eof, 'wb') as f:
+        f.write(b'pico-8 cartridge // http://www.pico-8.com\nversion 8\n__lua__\n' + src.rstrip(b'\n'))
+    combos.append((2, eof))
     for w, inp in combos:
         outp = inp.replace('.p8', '_fmt.p8', 1)
         if os.path.exists(outp):
@@ -301,7 +306,7 @@ def cli_fmt_outputs(ctx, d, p, png, src, run):
         if rc not in (0, None) or not os.path.exists(outp):
             ctx.violation('cli-fails/luafmt/width-%s' % w, 'p8tool luafmt --indentwidth %s failed on the every-node fixture as %s (rc=%s)' % (w, os.path.basename(inp), rc), {'kind': 'cli'})
             continue
-        yield (w, os.path.basename(inp), src, cartio.game_code(gfile.from_file(outp)), deriv)
+        yield (w, os.path.basename(inp), src.rstrip(b'\n') if inp.endswith('eof.p8') else src, cartio.game_code(gfile.from_file(outp)), deriv)
 
 
 def cli_setup(ctx):
